@@ -15,7 +15,7 @@ def plan(tier, seed):
               "many like pieces, batteries, endgames); each also one ply below. Non-trivial = position (distinct by "
               "FEN) with a pinned man, check, double check, legal e.p., e.p. made illegal by pin/check, castling "
               "right with blocked/attacked path, available promotion, or >=2 like pieces reaching one square."),
-        floors={"pinned man": 200, "double check": 20, "legal e.p.": 30, "e.p. illegal by pin/check": 15,
+        floors={"pinned man": 200, "double check": 20, "legal e.p.": 30, "e.p. illegal by pin/check": 15, "e.p. capture gives check": 10,
                 "castling right but path blocked/attacked": 200, "promotion available": 100,
                 ">=2 like pieces to one square": 200, "in check": 200},
         assumptions=["refchess (independent mailbox rules, validated by published perft counts at the start of the run) is the oracle",
